@@ -208,6 +208,104 @@ Fixpoint sched_ok (c : chain) (earliest : Z) (d : db) (reached : Z) (l : list in
       && sched_ok c earliest (run_incarnation c earliest d i) (step_reached earliest d reached i) r
   end.
 
+(* ------------------------------------------------------------------ the service loop when the node client fails
+   server/indexer_service.go OnStart:
+     status, err := client.Status(ctx);      if err != nil { return err }     (the life ends before anything is read or written)
+     ... , err := client.Subscribe(...);     if err != nil { return err }     (same)
+     lastIndexedBlock := resume rule
+     for {
+       if lastIndexedBlock >= latestBlock { mark the indexer ready (once); wait for a new-block signal; continue }
+       for i := lastIndexedBlock + 1; i <= latestBlock; i++ {
+         block, err := client.Block(ctx, &i)
+         if err != nil { if !ready && markFailedToIndexBlock(i) { lastIndexedBlock = i }; break }
+         res, err := client.BlockResults(ctx, &i)
+         if err != nil { if !ready && markFailedToIndexBlock(i) { lastIndexedBlock = i }; break }
+         IndexBlock(block, res); lastIndexedBlock = i } }
+   `break` leaves the inner loop with lastIndexedBlock unchanged: the next pass of the outer loop fetches the SAME height again
+   (Block first, then BlockResults).  While the indexer is not yet marked ready, markFailedToIndexBlock counts the failed passes
+   per height and answers "skip" on the 11th (startupIndexBlockFailureThreshold = 10): only then the cursor moves past a block
+   that was not handed to IndexBlock.  No announcement is consumed before the indexer is ready (latestBlock = the Status height
+   during catch-up), so height i is fetched before `ready` iff i <= the node height at start. *)
+
+(* what the node client answers during one life for one height: outcomes of the successive Block(h) calls and of the
+   successive BlockResults(h) calls (true = error); calls beyond the lists succeed *)
+Record hplan := HP { hp_height : Z; hp_block : list bool; hp_results : list bool }.
+
+Definition startup_failure_threshold : nat := 10.
+
+(* the passes of the outer loop at one height: does the service give up on it (cursor := i without IndexBlock)?
+   cnt = startupIndexBlockFailureTracker[i] *)
+Fixpoint gives_up (ready : bool) (bl rs : list bool) (cnt fuel : nat) : bool :=
+  match fuel with
+  | O => false
+  | S f =>
+      match bl with
+      | true :: bl' =>                                   (* Block(i) failed *)
+          if negb ready && (startup_failure_threshold <? S cnt)%nat then true else gives_up ready bl' rs (S cnt) f
+      | _ =>
+          match rs with
+          | true :: rs' =>                               (* Block(i) answered, BlockResults(i) failed *)
+              if negb ready && (startup_failure_threshold <? S cnt)%nat then true else gives_up ready (tl bl) rs' (S cnt) f
+          | _ => false                                   (* both answered: IndexBlock *)
+          end
+      end
+  end.
+
+Definition plan_at (p : list hplan) (h : Z) : list bool * list bool :=
+  match find (fun e => hp_height e =? h) p with
+  | Some e => (hp_block e, hp_results e)
+  | None => ([], [])
+  end.
+
+(* start = the node's height when the life began *)
+Definition skips (start : Z) (p : list hplan) (i : Z) : bool :=
+  let '(bl, rs) := plan_at p i in gives_up (start <? i) bl rs 0 (S (length bl + length rs)).
+
+(* the loop from cursor `cur` over the next n heights; bud = batch writes left before the process is killed *)
+Fixpoint svc_run (c : chain) (start : Z) (p : list hplan) (d : db) (cur : Z) (bud n : nat) : db :=
+  match n with
+  | O => d
+  | S n' =>
+      let i := cur + 1 in
+      if skips start p i then svc_run c start p d i bud n'            (* gave up on block i: never indexed in this life *)
+      else match block_at c i with
+           | None => d
+           | Some b =>
+               match bud with
+               | O => d                                               (* killed: nothing is written any more *)
+               | S bu => svc_run c start p (db_write d (index_block i b)) i bu n'
+               end
+           end
+  end.
+
+(* one life with its node-client behaviour: sl_startfail = Status or Subscribe returned an error *)
+Record slife := SL { sl_inc : incarnation; sl_startfail : bool; sl_plan : list hplan }.
+
+Definition run_slife (c : chain) (earliest : Z) (d : db) (L : slife) : db :=
+  if sl_startfail L then d
+  else let i := sl_inc L in
+       let cur := resume d (i_start i) earliest in
+       svc_run c (i_start i) (sl_plan L) d cur (i_kill i) (Z.to_nat (i_end i - cur)).
+
+Definition slife_run (c : chain) (earliest : Z) (l : list slife) : db :=
+  fold_left (run_slife c earliest) l [].
+
+(* schedules over which convergence holds: as sched_ok; a life that fails to start reads and writes nothing and is exempt *)
+Fixpoint ssched_ok (c : chain) (earliest : Z) (d : db) (reached : Z) (l : list slife) : bool :=
+  match l with
+  | [] => true
+  | L :: r =>
+      let i := sl_inc L in
+      (i_end i <=? Z.of_nat (length c)) &&
+      if sl_startfail L then ssched_ok c earliest d reached r
+      else (negb (last_indexed d =? -1) || (i_start i =? reached))
+           && ssched_ok c earliest (run_slife c earliest d L) (step_reached earliest d reached i) r
+  end.
+
+(* number of failed calls planned for a height *)
+Definition nfail (l : list bool) : nat := length (filter (fun b => b) l).
+Definition failures (p : list hplan) (h : Z) : nat := let '(bl, rs) := plan_at p h in (nfail bl + nfail rs)%nat.
+
 (* the live loop of one process: every wake-up indexes up to the latest announced height (stale announcements are no-ops) *)
 Fixpoint svc_loop (c : chain) (d : db) (cur : Z) (anns : list Z) : db :=
   match anns with
